@@ -55,6 +55,22 @@ pub fn gen_lsp(t: &mut Tape, m: usize) -> Vec<f64> {
     let slack = PI - (m as f64 + 1.0) * min_gap;
     // a third of the sets are crowded: most gaps stay close to the minimum and a few take the
     // slack, which gives strongly resonant (but legal) filters
+    // one set in ten is REGULAR: equally spaced frequencies - the neutral comb i*pi/(m+1) (a flat
+    // spectrum), the same comb shifted by a fraction of its spacing, or another common spacing with
+    // an arbitrary start; only the first of these is flat
+    if t.chance(0.1) {
+        let neutral = PI / (m as f64 + 1.0);
+        let (gap, start) = match t.weighted(&[1, 3, 2]) {
+            0 => (neutral, neutral),
+            1 => (neutral, (1.0 + if t.chance(0.5) { t.uniform(0.02, 0.7) } else { -t.uniform(0.02, 0.7) }) * neutral),
+            _ => {
+                let g = t.uniform(min_gap, (PI - 2.0 * min_gap) / (m as f64 - 1.0).max(1.0));
+                let room = PI - 2.0 * min_gap - (m as f64 - 1.0) * g;
+                (g, min_gap + t.unit() * room.max(0.0))
+            }
+        };
+        return (0..m).map(|i| start + i as f64 * gap).collect();
+    }
     let crowded = t.chance(0.33);
     let parts: Vec<f64> = (0..=m).map(|_| if crowded { t.unit().powi(6) + 0.002 } else { t.unit() + 0.05 }).collect();
     let total: f64 = parts.iter().sum();
@@ -75,7 +91,7 @@ impl Prop for LspSpectrum {
         "lsp-spectrum".into()
     }
     fn rule(&self) -> String {
-        "LSP order 2..24 (even and odd), stage 1..4, alpha in {0} u [0,0.6], linear or log gain in [0.3,3] (15 %: log-uniform in [1e-9,1e6]), increasing LSPs with random (a third: crowded, strongly resonant) spacing >= 1.01*pi/(4(m+1)); pulse response (frame 1 and 2) finite, decaying and with log-magnitude ln K - s ln|A(e^{j w~})| within 0.001 neper on the frequencies within 100 dB of the peak. Non-trivial: reference response decays inside the window".into()
+        "LSP order 2..24 (even and odd), stage 1..4, alpha in {0} u [0,0.6], linear or log gain in [0.3,3] (15 %: log-uniform in [1e-9,1e6]), increasing LSPs with random (a third: crowded, strongly resonant; a tenth: equally spaced - the neutral comb, shifted combs, other common spacings) spacing >= 1.01*pi/(4(m+1)); pulse response (frame 1 and 2) finite, decaying and with log-magnitude ln K - s ln|A(e^{j w~})| within 0.001 neper on the frequencies within 100 dB of the peak. Non-trivial: reference response decays inside the window".into()
     }
     fn tape_len(&self, _: Tier) -> usize {
         72
